@@ -306,6 +306,10 @@ class Kinds:
                         self._bind_for(n.target, n.iter, name, fr, d, outs)
                     elif isinstance(n, ast.NamedExpr) and isinstance(n.target, ast.Name) and n.target.id == name:
                         outs.append(self.kind(n.value, fr, d))
+                    elif isinstance(n, ast.AugAssign) and isinstance(n.target, ast.Name) and n.target.id == name:
+                        outs.append(('ext', 'augmented-assignment'))
+                    elif isinstance(n, ast.ExceptHandler) and n.name == name:
+                        outs.append(('ext', 'exception'))
             k = mkjoin(outs)
         finally:
             fr._busy.discard(key)
